@@ -11,7 +11,7 @@ import gc
 import numpy as np
 import torch
 
-from _lib import handler, arr, num, close, patched, expect_value_error
+from _lib import handler, arr, num, close, patched, expect_value_error, HANDLERS
 
 
 def _mk_function(vmap_ok):
@@ -518,3 +518,112 @@ def r_retain(c):
     if flag and f1:
         probs.append(f"retain_graph=True but {f1} were freed")
     return dict(reproduced=bool(probs), why=probs)
+
+
+# ------------------------------------------------------------------------------------------- C20
+def _snapshot(prog):
+    return {n: (None if t.grad is None else (id(t.grad), t.grad.detach().clone().numpy())) for n, t in prog.t.items() if t.is_leaf or t.grad is not None or True}
+
+
+def _changed(prog, snap):
+    out = []
+    for n, t in prog.t.items():
+        with torch.no_grad():
+            g = None
+            try:
+                import warnings
+                with warnings.catch_warnings():
+                    warnings.simplefilter("ignore")
+                    g = t.grad
+            except Exception:  # noqa
+                g = None
+        s = snap[n]
+        if (g is None) != (s is None):
+            out.append(f".grad of {n} {'created' if s is None else 'removed'}")
+        elif g is not None and (id(g) != s[0] or not np.array_equal(g.detach().numpy(), s[1])):
+            out.append(f".grad of {n} modified")
+    return out
+
+
+def _reject_scenario(c, attempt):
+    from torchjd.autojac import backward, mtl_backward
+    Agg = from_torchjd()
+    junk = [torch.zeros(5) for _ in range(attempt * 2)]
+    spec, what = c["spec"], c["what"]
+    prog = RealProg(spec, {})
+    # shuffle object addresses of candidate tensors is not controllable; several attempts vary the set iteration order
+    for n in ("a", "c", "p0", "q0"):
+        if n in prog.t and attempt % 2 == 1:
+            prog[n].grad = torch.ones_like(prog[n])
+    agg = Agg([])
+    if c["kind"] == "rejected_backward":
+        outs = [prog["y1"], prog["y2"]]
+        kw = dict(inputs=[prog["a"], prog["b"], prog["c"]])
+        if what == "chunk":
+            kw["parallel_chunk_size"] = 0
+        elif what == "empty":
+            outs = []
+        elif what == "duplicate":
+            outs = [prog["y1"], prog["y2"], prog["y1"]]
+        elif what in ("nonleaf_input", "no_grad_input"):
+            lst = [prog[n] for n in c["valid"]]
+            lst.insert(int(c["position"]), prog["h"] if what == "nonleaf_input" else prog["d"])
+            kw["inputs"] = lst
+        elif what == "aggregator_raises":
+            agg = Agg([], error="the aggregator rejects this Jacobian")
+        call = lambda: backward(outs, agg, **kw)
+    else:
+        losses, feats = [prog["loss0"], prog["loss1"]], [prog["f"]]
+        tp, shp, kw = [[prog["q0"]], [prog["q1"]]], [prog["p0"], prog["p1"]], {}
+        if what == "chunk":
+            kw["parallel_chunk_size"] = 0
+        elif what == "empty_features":
+            feats = []
+        elif what == "empty_losses":
+            losses, tp = [], []
+        elif what == "non_scalar_loss":
+            losses[int(c["position"])] = prog["lossv"]
+        elif what == "length_mismatch":
+            tp = [[prog["q0"]], [prog["q1"]], []]
+        elif what == "overlap":
+            tp = [[prog["q0"]], [prog["q1"], prog["p1"]]]
+        elif what == "duplicate_param":
+            if int(c.get("which", 0)) == 0:
+                tp = [[prog["q0"]], [prog["q1"], prog["q1"]]]
+            else:
+                shp = [prog["p0"], prog["p1"], prog["p0"]]
+        elif what == "nonleaf_task_param":
+            tp[int(c["task"])].insert(int(c["position"]), prog["m0"])
+        elif what == "nonleaf_shared_param":
+            shp.insert(int(c["position"]), prog["m0"])
+        elif what == "no_grad_param":
+            if int(c.get("which", 0)) == 0:
+                tp[1].append(prog["d"])
+            else:
+                shp.append(prog["d"])
+        call = lambda: mtl_backward(losses, feats, agg, tasks_params=tp, shared_params=shp, **kw)
+    return prog, call, junk
+
+
+def _r_rejected(c):
+    fn = "backward" if c["kind"] == "rejected_backward" else "mtl_backward"
+    last = None
+    for attempt in range(8):
+        prog, call, junk = _reject_scenario(c, attempt)
+        snap = _snapshot(prog)
+        try:
+            call()
+            raised = None
+        except Exception as e:  # noqa
+            raised = e
+        if raised is None:
+            return dict(reproduced=True, why=[f"{fn} accepted the invalid call ({c['what']})"], finding_key=f"{fn}:{c['what']}:accepted")
+        ch = _changed(prog, snap)
+        last = dict(reproduced=bool(ch), why=ch[:3] + [f"raised {type(raised).__name__}"], attempt=attempt, finding_key=f"{fn}:{c['what']}:grad-written-before-rejection")
+        if ch:
+            return last
+    return last
+
+
+HANDLERS["rejected_backward"] = _r_rejected
+HANDLERS["rejected_mtl"] = _r_rejected
